@@ -154,6 +154,16 @@ func c02GenTx(r *rng, st *stats, o genOpts) GTx {
 			{Account: genAccount(r, o), Amount: &other, Indent: ind, Sep: sep},
 		}
 	}
+	// the residuals above changed mantissas after genAmount had applied the single-mark rule of G
+	// (DESIGN.md 4.2): re-apply it, so that no value with three decimals is spelled `1,264`
+	for i := range t.Postings {
+		if a := t.Postings[i].Amount; a != nil {
+			fixSingleMark(a)
+		}
+		if c := t.Postings[i].Cost; c != nil {
+			fixSingleMark(&c.Amt)
+		}
+	}
 	// postings in parentheses are outside the equation; brackets are inside
 	for i := range t.Postings {
 		if r.chance(12) {
@@ -393,4 +403,14 @@ func runC02(o opts) error {
 		t, err := c02Run(c, c02Flags(c))
 		return c, t, nt, err
 	})
+}
+
+// fixSingleMark re-applies the single-mark rule of G to an amount whose mantissa was changed after
+// genAmount: one mark followed by exactly three digits with a non-zero ungrouped integer part and
+// no exponent is a grouped integer in this project, so such a value is written with an exponent.
+func fixSingleMark(a *GAmount) {
+	if a.Dec == 3 && a.Group == "" && !a.UseE && absI64(a.Mant)/1000 != 0 {
+		a.UseE = true
+		a.EExp = 0
+	}
 }
